@@ -1,7 +1,7 @@
 """Exploration plans per property: which harness families / option sets are
 enumerated in the quick and thorough tiers, with which build variant."""
 
-HARNESS_SOURCES = ["engine.c", "ref.c", "qsx.c", "lpfam.c", "h_inst.c", "h_hist.c", "h_basis.c", "h_copy.c", "h_meta.c", "families.c"]  # keep in sync with harness/families.c
+HARNESS_SOURCES = ["engine.c", "ref.c", "qsx.c", "lpfam.c", "h_inst.c", "h_hist.c", "h_basis.c", "h_copy.c", "h_meta.c", "h_io.c", "h_esolver.c", "families.c"]  # keep in sync with harness/families.c
 
 
 def lp(id, variant, fam, cfg="default", weight=1, **kw):
@@ -170,5 +170,85 @@ PLANS["C15"] = {
     "evidence": {"states": ["formulations_compared", "instances"], "transitions": ["executions"], "nontrivial": ["instances_nontrivial"]},
     "assumptions": ["for the catalogue the claim is the relation over the transformation closure of these 24 problems only; their absolute optimum is not independently known",
                     "the catalogue is generated by closed formulas (no random numbers)"] + LP_ASSUME,
+}
+
+IO_ASSUME = [
+    "the reference model of a problem is harness/ref.c RefLP; problems read back are compared by name where the name survives the writer's documented name repair and structurally (all bijections of the renamed columns, greedy on rows) otherwise",
+    "both writers drop empty rows (the LP format cannot express them, the MPS writer says so in a warning): dropped empty rows are not counted as a difference",
+    "integer marks are set by writing the marker array the readers fill (there is no API call for it)",
+]
+WR_RULE = ("problem = plain 2x2 base problem + a subset of <= k deviations out of 123 (row kind incl. ranges 0, 1, 5/2; 8 bound shapes incl. negative upper, fixed, free; coefficients/rhs/objective from "
+           "{-1, 1/3, 10^40+1, 1/(10^40+1), -7/2, 0}; max; integer marks; 14 names incl. keywords, digits first, illegal characters, generated-name clashes, 255 characters; extra column/row, empty row; "
+           "rows of 5/40/300 terms; .gz/.bz2/FILE* targets); written by the library, read by the library, compared with the model, then both are solved; non-trivial = at least one deviation")
+PLANS["C08"] = {
+    "title": "writing a problem in LP format and reading it back yields the same problem",
+    "rule": WR_RULE,
+    "quick": [fam("wr-LP-k2", "prod", "wr", {"fmt": "LP", "k": 2}, weight=4, crash_props=["C17", "C08"]),
+              fam("wr-LP-k1-san", "san", "wr", {"fmt": "LP", "k": 1}, weight=1, crash_props=["C17", "C08"]),
+              fam("rd-LP-k1", "prod", "rd", {"fmt": "LP", "k": 1}, weight=1, crash_props=["C17", "C08"]),
+              fam("rd-MPS-k1", "prod", "rd", {"fmt": "MPS", "k": 1}, weight=1, crash_props=["C17", "C08"])],
+    "thorough": [fam("wr-LP-k3", "prod", "wr", {"fmt": "LP", "k": 3}, weight=10, crash_props=["C17", "C08"]),
+                 fam("wr-LP-k2-san", "san", "wr", {"fmt": "LP", "k": 2}, weight=4, crash_props=["C17", "C08"]),
+                 fam("rd-LP-k2", "prod", "rd", {"fmt": "LP", "k": 2}, weight=2, crash_props=["C17", "C08"]),
+                 fam("rd-MPS-k2", "prod", "rd", {"fmt": "MPS", "k": 2}, weight=2, crash_props=["C17", "C08"])],
+    "bounds": {"quick": "all subsets of <= 2 deviations (7504 problems); MPS/LP-specific shapes from the independent renderers (<= 1 lexical deviation) fed through the LP writer",
+               "thorough": "all subsets of <= 3 deviations (302k problems)"},
+    "evidence": {"states": ["instances"], "transitions": ["executions"], "nontrivial": ["instances_nontrivial"]},
+    "assumptions": IO_ASSUME,
+}
+PLANS["C09"] = {
+    "title": "MPS output reads back as the same problem, and LP and MPS renderings agree",
+    "rule": WR_RULE + "; chain=1 additionally runs every sequence of <= 3 conversions over {LP,MPS}; MPS-specific shapes (negative RHS, RANGES on L/G/E rows of either sign, MI/PL/FR/FX bound types, markers, OBJSENSE/OBJNAME) enter through the 'rd' family: text from an independent renderer is read and then written and re-read in both formats",
+    "quick": [fam("wr-MPS-k2", "prod", "wr", {"fmt": "MPS", "k": 2}, weight=4, crash_props=["C17", "C09"]),
+              fam("wr-LP-k1-chain", "prod", "wr", {"fmt": "LP", "k": 1, "chain": 1}, weight=2, crash_props=["C17", "C09"]),
+              fam("wr-MPS-k1-chain", "prod", "wr", {"fmt": "MPS", "k": 1, "chain": 1}, weight=2, crash_props=["C17", "C09"]),
+              fam("rd-MPS-k1", "prod", "rd", {"fmt": "MPS", "k": 1}, weight=1, crash_props=["C17", "C09"]),
+              fam("rd-LP-k1", "prod", "rd", {"fmt": "LP", "k": 1}, weight=1, crash_props=["C17", "C09"])],
+    "thorough": [fam("wr-MPS-k3", "prod", "wr", {"fmt": "MPS", "k": 3}, weight=10, crash_props=["C17", "C09"]),
+                 fam("wr-LP-k2-chain", "prod", "wr", {"fmt": "LP", "k": 2, "chain": 1}, weight=6, crash_props=["C17", "C09"]),
+                 fam("wr-MPS-k2-chain", "prod", "wr", {"fmt": "MPS", "k": 2, "chain": 1}, weight=6, crash_props=["C17", "C09"]),
+                 fam("rd-MPS-k2", "prod", "rd", {"fmt": "MPS", "k": 2}, weight=2, crash_props=["C17", "C09"])],
+    "bounds": {"quick": "<= 2 deviations single step; <= 1 deviation x all 7 conversion sequences of length <= 3 from each format", "thorough": "<= 3 deviations single step; <= 2 deviations x conversion sequences"},
+    "evidence": {"states": ["instances"], "transitions": ["executions"], "nontrivial": ["instances_nontrivial"]},
+    "assumptions": IO_ASSUME,
+}
+PLANS["C10"] = {
+    "title": "files are read as the exact problem their text denotes",
+    "rule": ("family 'num': every string of length <= len over the alphabet 0 1 7 . e E + - / followed by NUL, blank or a letter, through mpq_ILLget_value, against an independent recursive-descent reference of the "
+             "literal grammar [sign] digits [. digits] [e [sign] digits] [/ literal]: wherever the reference's longest literal is what the scanner consumed the values must be the identical rational; "
+             "family 'rd': 62 base problems (plain 2x2 + one feature) rendered as LP or MPS text by an independent renderer under a rendering-choice vector (LP: 21 coordinates - keyword spellings and case, "
+             "coefficient 1 omitted/written, repeated and cancelling terms, term order, spacing, line breaks, comments, blank lines, bound forms, number spellings (integer, decimal, exponent, unreduced fraction, zero padded), "
+             "row/objective names omitted, ...; MPS: 12 coordinates - spacing, 6 RANGES representations, alternative bound types, OBJSENSE/OBJNAME, blank set names, two entries per line, comments, RHS on the objective row, ...) "
+             "with <= k non-default coordinates; the problem read must equal the model the text was rendered from, names and all numbers exactly; non-trivial = at least one non-default rendering choice / a string that contains a literal"),
+    "quick": [fam("num-len6", "prod", "num", {"len": 6}, weight=2, crash_props=["C17", "C10", "C11"]),
+              fam("rd-LP-k2", "prod", "rd", {"fmt": "LP", "k": 2, "post": 0}, weight=3, crash_props=["C17", "C10"]),
+              fam("rd-MPS-k2", "prod", "rd", {"fmt": "MPS", "k": 2, "post": 0}, weight=2, crash_props=["C17", "C10"]),
+              fam("rd-LP-k1-san", "san", "rd", {"fmt": "LP", "k": 1, "post": 0}, weight=1, crash_props=["C17", "C10"]),
+              fam("rd-MPS-k1-san", "san", "rd", {"fmt": "MPS", "k": 1, "post": 0}, weight=1, crash_props=["C17", "C10"])],
+    "thorough": [fam("num-len7", "prod", "num", {"len": 7}, weight=4, crash_props=["C17", "C10", "C11"]),
+                 fam("rd-LP-k2", "prod", "rd", {"fmt": "LP", "k": 2}, weight=3, crash_props=["C17", "C10"]),
+                 fam("rd-MPS-k2", "prod", "rd", {"fmt": "MPS", "k": 2}, weight=2, crash_props=["C17", "C10"]),
+                 fam("rd-LP-k2-san", "san", "rd", {"fmt": "LP", "k": 2, "post": 0}, weight=4, crash_props=["C17", "C10"]),
+                 fam("rd-MPS-k2-san", "san", "rd", {"fmt": "MPS", "k": 2, "post": 0}, weight=3, crash_props=["C17", "C10"])],
+    "bounds": {"quick": "all 1.8M strings of length <= 6 x 3 terminators; all rendering vectors with <= 2 non-default coordinates (56854 LP files, 13482 MPS files)", "thorough": "strings of length <= 7 (16M x 3)"},
+    "evidence": {"states": ["instances"], "transitions": ["executions"], "nontrivial": ["instances_nontrivial"]},
+    "assumptions": IO_ASSUME + ["a literal that is immediately followed by characters which make the whole token ungrammatical (\"0E.\") is outside 'syntactically valid file'; the scanner's behaviour there is counted, not judged",
+                                "in free-format MPS a blank set name is only recognisable when a number follows the row/column name; the renderer therefore never leaves the BOUNDS set name blank"],
+}
+PLANS["C19"] = {
+    "title": "the esolver program reports exactly what the library computed",
+    "rule": ("item = (LP instance of the named family written by the library as one of 8 file kinds (.lp .mps .lp.gz .mps.bz2 .lp.bz2 .mps.gz, extension-less with and without -L), option vector with <= dev non-default options out of "
+             "-O sol[.gz|.bz2], -p k, -d k, -S, -P bits, -b/-B round trip); esolver is run as a child process; exit status, status line (against the Fourier-Motzkin truth of the problem as re-read from the file), and for OPTIMAL "
+             "the exact optimality certificate rebuilt from the listed non-zero VARS / REDUCED COST / PI / SLACK are checked; 32 malformed or unreadable inputs must give a non-zero exit without a signal; "
+             "non-trivial = instance with a row and a non-zero coefficient"),
+    "quick": [fam("esol-S0q1-dev0", "prod", "esol", {"fam": "S0q1", "dev": 0, "kinds": "basic", "bad": 1}, weight=3, crash_props=["C17", "C19"], esolver="prod", timeout=120),
+              fam("esol-T-dev1", "prod", "esol", {"fam": "T", "dev": 1, "kinds": "basic", "tscale": 30}, weight=3, crash_props=["C17", "C19"], esolver="prod", timeout=300)],
+    "thorough": [fam("esol-S0q1-dev1-all", "prod", "esol", {"fam": "S0q1", "dev": 1, "kinds": "all", "bad": 1}, weight=10, crash_props=["C17", "C19"], esolver="prod", timeout=120),
+                 fam("esol-T-dev1-all", "prod", "esol", {"fam": "T", "dev": 1, "kinds": "all"}, weight=4, crash_props=["C17", "C19"], esolver="prod", timeout=600),
+                 fam("esol-S0q1-san", "prod", "esol", {"fam": "S0q1", "dev": 0, "kinds": "basic", "bad": 1, "mlimit": 35184372088832}, weight=3, crash_props=["C17", "C19"], esolver="san", timeout=300, env={"ASAN_OPTIONS": "detect_leaks=0"}, range=[0, 4000])],
+    "bounds": {"quick": "S0q1 x default options x {.lp,.mps} + 32 malformed inputs; targeted family T x <= 1 option", "thorough": "S0q1 x <= 1 option x 8 file kinds; T x <= 1 option x 8 kinds; ASan build of esolver on a slice"},
+    "evidence": {"states": ["instances"], "transitions": ["executions"], "nontrivial": ["instances_nontrivial"]},
+    "assumptions": ["the model of an instance is the problem the library reads back from the written file, so file round-trip defects (C08-C10) stay out of this check",
+                    "for a non-OPTIMAL status esolver is not required to write a basis with -b (the verdict may be reached without one)"] + LP_ASSUME,
 }
 NOT_YET = {}
